@@ -78,20 +78,20 @@ void h_ensure_capacity(void) {
 /* ---------------------------------------------------------------- set / push */
 void h_set_at(void) {
     struct aws_array_list *l; const void *v; size_t i;
-    GHOSTS();
+    GHOSTS(); g_lemma = AL_FN_SET_AT;
     int r = aws_array_list_set_at(l, v, i);
     if (r == 0) { if (i < SMALL) CANARY("set small index"); else CANARY("set large index"); }
     else if (i < SMALL) CANARY("static refusal"); else CANARY("overflow or static refusal");
 }
 void h_push_back(void) {
     struct aws_array_list *l; const void *v;
-    GHOSTS();
+    GHOSTS(); g_lemma = AL_FN_PUSH_BACK;
     int r = aws_array_list_push_back(l, v);
     if (r == 0) CANARY("pushed"); else CANARY("refused");
 }
 void h_push_front(void) {
     struct aws_array_list *l; const void *v;
-    GHOSTS();
+    GHOSTS(); g_lemma = AL_FN_PUSH_FRONT;
     int r = aws_array_list_push_front(l, v);
     if (r == 0) CANARY("pushed"); else CANARY("refused");
 }
@@ -111,13 +111,13 @@ void h_clear(void) {
 }
 void h_pop_front_n(void) {
     struct aws_array_list *l; size_t n;
-    GHOSTS();
+    GHOSTS(); g_lemma = AL_FN_POP_FRONT_N;
     aws_array_list_pop_front_n(l, n);
     if (n == 0) CANARY("n == 0"); else if (n < SMALL) CANARY("small n"); else CANARY("huge n");
 }
 void h_pop_front(void) {
     struct aws_array_list *l;
-    GHOSTS();
+    GHOSTS(); g_lemma = AL_FN_POP_FRONT;
     int r = aws_array_list_pop_front(l);
     if (r == 0) CANARY("popped"); else CANARY("empty");
 }
@@ -155,7 +155,7 @@ H_MEM_SWAP_SLOTS(1, 2)
 H_MEM_SWAP_SLOTS(2, 1)
 void h_swap(void) {
     struct aws_array_list *l; size_t a, b;
-    GHOSTS();
+    GHOSTS(); g_lemma = AL_FN_SWAP;
     aws_array_list_swap(l, a, b);
     if (a == b) CANARY("same index"); else if (a + 1 == b) CANARY("adjacent"); else CANARY("apart");
 }
@@ -213,9 +213,17 @@ void h_sort(void) {
     CANARY("returned");
 }
 
-/* ---------------------------------------------------------------- arithmetic lemmas (see contracts/array_list.h) */
-void h_lemma_erase(void) {
-    size_t i = nondet_size_t(), len = nondet_size_t();
-    __CPROVER_assert(AL_LEM_ERASE(i, len), "AL_LEM_ERASE holds for all values");
-    if (i < len && len <= AL_LEN_MAX) CANARY("hypothesis satisfiable");
-}
+/* ---------------------------------------------------------------- arithmetic lemmas (see contracts/array_list.h):
+ * pure size_t arithmetic, every operand arbitrary; the canary shows that the hypothesis is satisfiable */
+#define H_LEMMA2(name, LEM, HYP)                                                                                       \
+    void h_lemma_##name(void) {                                                                                        \
+        size_t x = nondet_size_t(), y = nondet_size_t(), z = nondet_size_t();                                          \
+        (void)z;                                                                                                       \
+        __CPROVER_assert(LEM, "arithmetic lemma holds for all values");                                              \
+        if (HYP) CANARY("hypothesis satisfiable");                                                                   \
+    }
+H_LEMMA2(erase, AL_LEM_ERASE(x, y), x < y && y <= AL_LEN_MAX)
+H_LEMMA2(slot, AL_LEM_SLOT(x, y, z), x < y && y <= AL_LEN_MAX && y * ISZ <= z)
+H_LEMMA2(ord, AL_LEM_ORD(x, y), x < y && y <= AL_LEN_MAX)
+H_LEMMA2(popn, AL_LEM_POPN(x, y), x < y && y <= AL_LEN_MAX)
+H_LEMMA2(next, AL_LEM_NEXT(x), x < AL_LEN_MAX)
